@@ -118,7 +118,7 @@ func vecName(def int, sites map[string]int) string {
 func init() {
 	fw.Register(&fw.Check{
 		ID: "C12", Level: "exploration", Shards: shards16,
-		Rule: "every runtime.GOMAXPROCS(0) call site found in the current tree is hooked (13 today); for 12 (picture, options) cases large enough for every parallel threshold: the all-ones vector (reference), every single site deviating to each of {2,3,5,16}, every uniform vector n=2..16 (what a real GOMAXPROCS value produces), every pair of sites deviating to {2,5}; executed under the deterministic default schedule with pools that never reuse, so the result is a function of the vector alone; distinct = distinct (case, vector)",
+		Rule:   "every runtime.GOMAXPROCS(0) call site found in the current tree is hooked (13 today); for 12 (picture, options) cases large enough for every parallel threshold: the all-ones vector (reference), every single site deviating to each of {2,3,5,16}, every uniform vector n=2..16 (what a real GOMAXPROCS value produces), every pair of sites deviating to {2,5}; executed under the deterministic default schedule with pools that never reuse, so the result is a function of the vector alone; distinct = distinct (case, vector)",
 		Assume: []string{"default (non-preempted) schedule: schedule dependence is C10's subject", "pools never reuse: history dependence is C11's subject", "GOMAXPROCS above 16 is not run"},
 		Run: func(e *fw.Env, r *fw.Result) {
 			cases := c12Cases(e.Seed)
